@@ -1,5 +1,5 @@
 """C01 - per-bin statistics equal the windowed-DFT definition on every backend."""
-from ..kernels import KernelEval, check_kernel, FAMILIES, MODES, BACKENDS, kernel_key
+from ..kernels import KernelEval, check_kernel, check_launch_coverage, FAMILIES, MODES, BACKENDS, kernel_key
 from ..qbasis import check_build_Q
 
 
@@ -15,7 +15,12 @@ def check(ctx):
         for fam in FAMILIES:
             for mode in MODES:
                 check_kernel(ctx, KE, fam, mode, backend)
+    for fam in FAMILIES:
+        for mode in MODES:
+            check_launch_coverage(ctx, KE, fam, mode)
     check_build_Q(ctx)
+    from ..dtypes import check_dtypes
+    check_dtypes(ctx)
     ctx.call_sites = len(KE.I.call_log)
     ctx.trust("L1 Goertzel closed form", "L2 conj of a DFT of real samples", "L17 chunk partition", "library model rows (DESIGN.md Appendix B)")
     ctx.assume("exact arithmetic: floating-point rounding and fastmath re-association are not modelled",
